@@ -41,6 +41,10 @@ def main():
                 continue
             sdir = os.path.join(root, name)
             meta = json.load(open(os.path.join(sdir, 'meta.json'), encoding='utf-8'))
+            if meta.get('out_of_scope') and not args.props and not args.expect_silent:
+                print(f'{name:40s} -   out-of-scope (see meta.json)')
+                results.append((name, '-', 'out-of-scope'))
+                continue
             props = args.props.split(',') if args.props else (
                 meta['caught_by'] if 'caught_by' in meta else
                 [meta['property']] if 'property' in meta else
@@ -84,8 +88,10 @@ def main():
     finally:
         shutil.rmtree(side, ignore_errors=True)
     good = 'silent' if args.expect_silent else 'caught'
-    missed = [r for r in results if r[2] != good]
-    print(f'\n{len(results)} runs, {len(results) - len(missed)} {good}, {len(missed)} not {good}')
+    scoped = [r for r in results if r[2] != 'out-of-scope']
+    missed = [r for r in scoped if r[2] != good]
+    print(f'\n{len(scoped)} runs, {len(scoped) - len(missed)} {good}, {len(missed)} not {good}'
+          + (f', {len(results) - len(scoped)} out of scope' if len(scoped) != len(results) else ''))
     return 1 if missed else 0
 
 
